@@ -45,7 +45,7 @@ func startServerAt(ps *prover.ProvingSystem, mode, proverAddr, metricsAddr strin
 }
 
 func newClient() *http.Client {
-	return &http.Client{Timeout: 300 * time.Second, Transport: &http.Transport{MaxIdleConnsPerHost: 64, DisableCompression: true}}
+	return &http.Client{Timeout: 300 * time.Second, Transport: &http.Transport{MaxIdleConnsPerHost: 64, DisableCompression: true, ExpectContinueTimeout: 2 * time.Second}}
 }
 
 func (s *testServer) waitReady(d time.Duration) error {
@@ -85,6 +85,38 @@ type httpResult struct {
 
 func (s *testServer) do(method string, body []byte) httpResult {
 	return doRequest(s.client, method, "http://"+s.ProverAddr+"/prove", body)
+}
+
+// doReq sends a generated request with its framing.
+func (s *testServer) doReq(r genReq) httpResult {
+	if r.Framing == "" {
+		return s.do(r.Method, r.bytes())
+	}
+	t0 := time.Now()
+	body := r.bytes()
+	var rd io.Reader = bytes.NewReader(body)
+	if r.Framing == "chunked" {
+		rd = struct{ io.Reader }{rd} // hides the length: the client uses chunked transfer encoding
+	}
+	req, err := http.NewRequest(r.Method, "http://"+s.ProverAddr+"/prove", rd)
+	if err != nil {
+		return httpResult{Err: "harness:request: " + err.Error(), Start: t0, End: time.Now()}
+	}
+	req.Header.Set("Content-Type", "application/json")
+	if r.Framing == "expect-continue" {
+		req.Header.Set("Expect", "100-continue")
+	}
+	resp, err := s.client.Do(req)
+	if err != nil {
+		return httpResult{Err: err.Error(), Elapsed: time.Since(t0), Start: t0, End: time.Now()}
+	}
+	defer resp.Body.Close()
+	b, err := io.ReadAll(resp.Body)
+	res := httpResult{Status: resp.StatusCode, Body: b, Elapsed: time.Since(t0), Start: t0, End: time.Now()}
+	if err != nil {
+		res.Err = "reading body: " + err.Error()
+	}
+	return res
 }
 
 func doRequest(client *http.Client, method, url string, body []byte) httpResult {
